@@ -213,6 +213,19 @@ def run_history(seed, env, res):
             canv = top.render(size, True)
             T.outside_sync = 0
             b0, e0 = T.sync_begins, T.sync_ends
+            winch = rnd.random() < 0.15
+            if winch:
+                # a window-size signal arrived just before this redraw: urwid does not draw
+                # until the resize has been handled, the main loop then draws the same canvas
+                # (the size turned out unchanged)
+                hist[-1] += "+winch"
+                screen._resized = True
+                screen.draw_screen(size, canv)
+                T.feed(buf.getvalue())
+                buf.seek(0)
+                buf.truncate()
+                screen._resized = False
+                res.count("redraws postponed by a pending window-size signal")
             screen.draw_screen(size, canv)
             out = buf.getvalue()
             buf.seek(0)
@@ -242,7 +255,7 @@ def run_history(seed, env, res):
             if T.outside_sync:
                 fail("outside-sync", "step %d: %d state-changing operations outside the synchronized-update bracket" % (step, T.outside_sync))
                 return
-            if (T.sync_begins - b0, T.sync_ends - e0) != (1, 1) or not out.startswith("\x1b[?2026h") or not out.endswith("\x1b[?2026l"):
+            if (T.sync_begins - b0, T.sync_ends - e0) != ((2, 2) if winch else (1, 1)) or not out.startswith("\x1b[?2026h") or not out.endswith("\x1b[?2026l"):
                 fail("sync-bracket", "step %d: redraw output not bracketed by one begin/end pair" % step)
                 return
             for a in T.malformed + [x for x in T.aborted if "kitty" in x or "STR" in x]:
